@@ -60,6 +60,45 @@ pub fn alloc_free(name: &str) -> bool {
     matches!(name, "ExponentialMovingAverage" | "RelativeStrengthIndex" | "AverageTrueRange" | "MovingAverageConvergenceDivergence" | "PercentagePriceOscillator" | "KeltnerChannel" | "TrueRange" | "OnBalanceVolume")
 }
 
+/// notable multipliers: the special values, and for every way of "tidying" the stored value a witness that is not a
+/// fixed point of it — more than 4 (6, 15) significant decimals, not representable in f32 or as a short decimal,
+/// tiny and huge normal magnitudes, subnormals, both zeros, both infinities
+pub const MULTIPLIERS: &[f64] = &[
+    0.0, -1.5, f64::NAN, f64::INFINITY, 1e300, 2.5,
+    -0.0, f64::NEG_INFINITY, 2.00001, 0.1 + 0.2, 0.30000000000000004, 1.0 / 3.0, -2.0 / 3.0, 0.12345678, 2.1, 1.3, 1.618, 1.6180339887498949,
+    3.141592653589793, 1e-5, 1e-7, -1e-7, 1e-15, 1e15, 123456.789, 1e16, 9007199254740993.0, 1e21, 1.5e-300, f64::MAX, -f64::MAX, 1.7976931348623155e308,
+    f64::MIN_POSITIVE, -f64::MIN_POSITIVE, 2.2250738585072009e-308, 1e-310, -1e-310, 5e-324, -5e-324, 1.0 + f64::EPSILON, 1.0 - f64::EPSILON / 2.0,
+    16777217.0, 3.4028235677973366e38, 1e39, 1e-46, 65504.5, 0.1, 0.7, 100.0, 1e2 + 1e-12,
+];
+
+/// a multiplier "as a user writes it" (decimal with 1..17 significant digits at a random decimal exponent), an
+/// arbitrary bit pattern (any sign/binade, NaN, inf, subnormals), or a neighbour of a round value
+pub fn random_multiplier(r: &mut Runner) -> f64 {
+    match r.rng.below(6) {
+        0 => f64::from_bits(r.rng.u64()),
+        1 => {
+            let x = f64::from_bits(r.rng.u64() & 0x000f_ffff_ffff_ffff); // subnormal
+            if r.rng.chance(0.5) { -x } else { x }
+        }
+        2 => {
+            let base = *r.rng.pick(&[1.0, 2.0, 3.0, 0.5, 10.0, 2.5, 0.0001, 1e4]);
+            let k = r.rng.range(0, 8) as i64 - 4;
+            let b = (base as f64).to_bits() as i64 + k;
+            f64::from_bits(b as u64)
+        }
+        _ => {
+            let digits = r.rng.range(1, 17) as u32;
+            let mant = (r.rng.u64() % 10u64.pow(digits)) as f64;
+            let exp = match r.rng.below(4) {
+                0 => r.rng.range(0, 640) as i32 - 330,
+                _ => -(r.rng.range(0, digits as usize + 3) as i32),
+            };
+            let x: f64 = format!("{}e{}", mant, exp).parse().unwrap_or(2.0);
+            if r.rng.chance(0.25) { -x } else { x }
+        }
+    }
+}
+
 pub fn check(case: &Case, rec: &mut Rec) -> Option<Failure> {
     if case.kind == "default" {
         let (ps, ms) = defaults(&case.ind);
@@ -158,11 +197,22 @@ pub fn generate(r: &mut Runner) {
                     }
                     r.run(c, p <= 1 || p % 2 == 0);
                 }
-                // multipliers incl. 0, negative, NaN, inf
+                // multipliers incl. 0, negative, NaN, inf — "accepted as given": multiplier() is compared bit for bit and
+                // Display against Rust's own `{}` of the ARGUMENT, so the set must contain values that are not fixed
+                // points of any rounding, narrowing or flushing of the stored value
                 if nm == 1 {
-                    for m in [0.0, -1.5, f64::NAN, f64::INFINITY, 1e300, 2.5] {
-                        let mut c = Case::new("C11", "ctor-multiplier", name, &[7], &[m]);
+                    let mut mults: Vec<f64> = MULTIPLIERS.to_vec();
+                    let extra = if r.tier == Tier::Quick { 160 } else { 4000 };
+                    for _ in 0..extra {
+                        mults.push(random_multiplier(r));
+                    }
+                    for (i, m) in mults.into_iter().enumerate() {
+                        let p = if i < 6 { 7 } else { *r.rng.pick(&[1usize, 2, 7, 14, 20, 33]) };
+                        let mut c = Case::new("C11", "ctor-multiplier", name, &[p], &[m]);
                         c.ops = super::c04::history(r, name, 10, 0.0, 1.0);
+                        if r.rng.chance(0.5) {
+                            c.ops.push(Op::Reset);
+                        }
                         r.run(c, true);
                     }
                 }
@@ -207,4 +257,4 @@ pub fn generate(r: &mut Runner) {
     }
 }
 
-pub const RULE: &str = "every single-period constructor over 0..=N exhaustively (N = 1024 quick / 4096 thorough), every tuple over 0..=K for SlowStochastic/MACD/PPO (K = 9 quick / 24 thorough), boundary periods 2^31, 2^32, 2^53+1, usize::MAX-1, usize::MAX in each position for the allocation-free constructors (EMA, RSI, ATR, MACD, PPO, KeltnerChannel, and the EMA period of SlowStochastic), multipliers {0,-1.5,NaN,inf,1e300,2.5}; verdict Err iff some period is 0, never a panic (overflow checks on); period()/multiplier()/Display compared with the arguments right after new and again after a later history incl. reset; Default::default() compared with new(documented defaults) by serialized state, Display and 40 subsequent outputs. Distinct = distinct (indicator, params, history).";
+pub const RULE: &str = "every single-period constructor over 0..=N exhaustively (N = 1024 quick / 4096 thorough), every tuple over 0..=K for SlowStochastic/MACD/PPO (K = 9 quick / 24 thorough), boundary periods 2^31, 2^32, 2^53+1, usize::MAX-1, usize::MAX in each position for the allocation-free constructors (EMA, RSI, ATR, MACD, PPO, KeltnerChannel, and the EMA period of SlowStochastic), multipliers for BollingerBands/ChandelierExit/KeltnerChannel (periods from {1,2,7,14,20,33}): the 50 notable values of MULTIPLIERS (±0, ±inf, NaN, 2.5, -1.5, 1e300, values with more than 4/6/15 significant decimals such as 2.00001, 0.1+0.2, 1/3, 0.12345678, 1.618…, not representable in f32 such as 2.1, 1.3, 2^24+1, f32::MAX-ish, 1e39, 1e-46, tiny/huge normals 1e-7, 1e-15, 1e16, 2^53+1, 1e21, ±f64::MAX, its predecessor, ±MIN_POSITIVE, its predecessor, subnormals ±1e-310, ±5e-324, 1±ulp) plus N random ones (N = 160 quick / 4000 thorough per indicator: arbitrary bit patterns incl. NaN/inf, subnormal bit patterns, decimals of 1..17 significant digits at exponents −330..310, neighbours within 4 ulps of round values) — multiplier() compared bit for bit with the argument and Display with Rust's own `{}` rendering of the ARGUMENT, right after new and after a history (half of them ending in reset); verdict Err iff some period is 0, never a panic (overflow checks on); period()/multiplier()/Display compared with the arguments right after new and again after a later history incl. reset; Default::default() compared with new(documented defaults) by serialized state, Display and 40 subsequent outputs. Distinct = distinct (indicator, params, history).";
